@@ -21,11 +21,13 @@ pub struct OpOpts {
     /// nullable variable with a default used in a non-null position
     pub nullable_var_with_default: bool,
     pub max_ops: usize,
+    /// alias every selected field uniquely: no duplicate response keys anywhere
+    pub unique_response_keys: bool,
 }
 
 impl OpOpts {
     pub fn standard() -> OpOpts {
-        OpOpts { coercing_literals: false, custom_directives: true, skip_include: true, fragments: true, variables: true, shorthand: false, max_depth: 3, nullable_var_with_default: false, max_ops: 3 }
+        OpOpts { coercing_literals: false, custom_directives: true, skip_include: true, fragments: true, variables: true, shorthand: false, max_depth: 3, nullable_var_with_default: false, max_ops: 3, unique_response_keys: false }
     }
 }
 
@@ -46,6 +48,14 @@ impl<'a> G<'a> {
     fn alias(&mut self) -> String {
         self.alias_n += 1;
         format!("a{}", self.alias_n)
+    }
+
+    fn typename(&mut self) -> Sel {
+        let mut f = Field::leaf("__typename");
+        if self.o.unique_response_keys {
+            f.alias = Some(nm(&self.alias()));
+        }
+        Sel::Field(f)
     }
 
     fn new_var(&mut self, sc: &mut Scope, ty: Ty, rng: &mut Rng, loc_has_default: bool) -> String {
@@ -180,17 +190,19 @@ impl<'a> G<'a> {
                 let composite = ix.is_composite(&base);
                 if composite && depth == 0 {
                     // cannot descend further: select __typename instead
-                    items.push(Sel::Field(Field::leaf("__typename")));
+                    let t = self.typename();
+                    items.push(t);
                     continue;
                 }
                 let args = self.args(sc, rng, &fd.args);
                 // a selection with arguments always gets a unique alias (keeps overlapping fields mergeable)
-                let alias = if !args.is_empty() || rng.chance(1, 5) { Some(nm(&self.alias())) } else { None };
+                let alias = if self.o.unique_response_keys || !args.is_empty() || rng.chance(1, 5) { Some(nm(&self.alias())) } else { None };
                 let dirs = self.exec_dirs(sc, rng, "FIELD");
                 let sels = if composite { Some(self.selset(sc, rng, &base, depth - 1, frag_limit)) } else { None };
                 items.push(Sel::Field(Field { alias, name: nm(&fd.name.s), args, args_p: P::none(), dirs, sels }));
             } else if r < 7 {
-                items.push(Sel::Field(Field::leaf("__typename")));
+                let t = self.typename();
+                items.push(t);
             } else if r < 9 && depth > 0 {
                 // inline fragment
                 let cond = if rng.chance(1, 4) {
@@ -216,10 +228,12 @@ impl<'a> G<'a> {
                     let dirs = self.exec_dirs(sc, rng, "FRAGMENT_SPREAD");
                     items.push(Sel::Spread { p: P::none(), name: nm(&fr.name.s), dirs });
                 } else {
-                    items.push(Sel::Field(Field::leaf("__typename")));
+                    let t = self.typename();
+                    items.push(t);
                 }
             } else {
-                items.push(Sel::Field(Field::leaf("__typename")));
+                let t = self.typename();
+                items.push(t);
             }
         }
         if kind == TKind::Union && items.iter().all(|s| matches!(s, Sel::Field(_))) && depth > 0 {
